@@ -13,6 +13,7 @@
 #include <cppcms/http_cookie.h>
 #include <cppcms/http_content_filter.h>
 #include <cppcms/cache_interface.h>
+#include <cppcms/copy_filter.h>
 #include <cppcms/json.h>
 #include <booster/aio/io_service.h>
 #include <booster/shared_ptr.h>
@@ -189,7 +190,7 @@ static std::vector<wop> parse_script(std::string const &s)
 		wop o; o.op = t[0]; o.a = o.b = 0;
 		std::string rest = t.substr(1);
 		size_t dot = rest.find('.');
-		if (o.op == 'h' || o.op == 'c' || o.op == 't' || o.op == 'K' || o.op == 'T' || o.op == 'R' || o.op == 'G' || o.op == 'L') { o.s1 = unhex(dot == std::string::npos ? rest : rest.substr(0, dot)); if (dot != std::string::npos) o.s2 = unhex(rest.substr(dot + 1)); }
+		if (o.op == 'h' || o.op == 'c' || o.op == 't' || o.op == 'K' || o.op == 'T' || o.op == 'R' || o.op == 'G' || o.op == 'L' || o.op == 'C') { o.s1 = unhex(dot == std::string::npos ? rest : rest.substr(0, dot)); if (dot != std::string::npos) o.s2 = unhex(rest.substr(dot + 1)); }
 		else { o.a = atol(rest.c_str()); if (dot != std::string::npos) o.b = atol(rest.c_str() + dot + 1); }
 		v.push_back(o);
 	}
@@ -221,6 +222,11 @@ public:
 			case 's': rs.status((int)o.a); break;
 			case 'K': if (cache().fetch_page(o.s1)) { ev("{\"ev\":\"cache_hit\",\"token\":" + jstr(st->token) + "}"); st->pos = st->ops.size(); return true; } st->store_key = o.s1; break;
 			case 'G': { std::string fr; if (!cache().fetch_frame(o.s1, fr)) { std::set<std::string> t; if (!o.s2.empty()) t.insert(o.s2); cache().store_frame(o.s1, "frame-content", t); ev("{\"ev\":\"frame_built\",\"token\":" + jstr(st->token) + "}"); } break; }
+			case 'C': {   // C<key>.<size as text>: a frame rendered through copy_filter and kept with store_frame (the documented pattern)
+				std::string fr; size_t n = (size_t)atol(o.s2.c_str());
+				if (cache().fetch_frame(o.s1, fr)) { rs.out() << fr; ev("{\"ev\":\"frame_hit\",\"token\":" + jstr(st->token) + ",\"len\":" + std::to_string(fr.size()) + "}"); }
+				else { cppcms::copy_filter tee(rs.out()); std::string d = pattern_bytes(7, n); rs.out().write(d.data(), (std::streamsize)d.size()); cache().store_frame(o.s1, tee.detach()); ev("{\"ev\":\"frame_built\",\"token\":" + jstr(st->token) + "}"); }
+				break; }
 			case 'T': cache().add_trigger(o.s1); break;
 			case 'R': cache().rise(o.s1); break;
 			case 'F':
